@@ -269,10 +269,20 @@ func (s *Service) WriteShard(shardID, ownerID uint64, points []models.Point) err
 	atomic.AddInt64(&s.stats.WriteShardReq, 1)
 	atomic.AddInt64(&s.stats.WriteShardReqPoints, int64(len(points)))
 
-	s.mu.RLock()
-	processor, ok := s.processor(ownerID, shardID)
-	s.mu.RUnlock()
-	if !ok {
+	for {
+		s.mu.RLock()
+		processor, ok := s.processor(ownerID, shardID)
+		if ok {
+			// Write while still holding the read lock. The purge of inactive
+			// processors and RemoveNode take the write lock: without it a processor
+			// that is empty at this moment could be closed and its directory removed
+			// right after an accepted write, silently deleting that write.
+			err := processor.WriteShard(points)
+			s.mu.RUnlock()
+			return err
+		}
+		s.mu.RUnlock()
+
 		if err := func() error {
 			// Check again under write-lock.
 			s.mu.Lock()
@@ -292,12 +302,6 @@ func (s *Service) WriteShard(shardID, ownerID uint64, points []models.Point) err
 			return err
 		}
 	}
-
-	if err := processor.WriteShard(points); err != nil {
-		return err
-	}
-
-	return nil
 }
 
 // Empty returns whether this node processor's queue is empty
